@@ -167,7 +167,7 @@ def entryS (s : Scn) : Entry → String
   | .cbBegin t ph cb seen ev src tgt =>
     s!"B {t} {phaseName ph} {cb} seen={optS s.reprV seen} st={stKw s ph src tgt} ev={ev} src={optS toString src} tgt={tgt}"
   | .sendRet t ph cb r => s!"S {t} {phaseName ph} {cb} {resS s r}"
-  | .cbEnd t ph cb => s!"E {t} {phaseName ph} {cb}"
+  | .cbEnd t ph cb v => s!"E {t} {phaseName ph} {cb} {s.reprV v}"
   | .setState t v => s!"T {t} {s.reprV v}"
 
 def runEngine (s : Scn) : List String := Id.run do
